@@ -852,3 +852,6 @@ func IdleTime() time.Duration {
 	}
 	return s.idleTotal
 }
+
+// SetInvariant installs (or removes) the predicate evaluated between steps while every thread is stopped.
+func (s *Sched) SetInvariant(f func() error) { s.opt.Invariant = f }
